@@ -93,9 +93,11 @@ def main():
     pycommon.indent_skeleton(chk, o, 4 if chk.quick else 6, pycommon.CORE_OPTS, wall=120 if chk.quick else 1500, tokens_only=True)
     pycommon.indent_skeleton(chk, o, 2 if chk.quick else 3, pycommon.RICH_OPTS, wall=120 if chk.quick else 1500, tokens_only=True, label="rich")
     # concrete layouts: every Python seed and every implicit string concatenation as written, with CRLF line ends, and without the final newline
+    from symx import errseeds
     base = list(dict.fromkeys(PY_LAYOUT + py + seeds.concat_product(True, 100 if chk.quick else 1000, chk.rng)))
     if chk.quick:
         base = PY_LAYOUT + seeds.sample(chk.rng, base, 700)
+    base = errseeds.dedent_after() + base
     lay = [t for s in base for t in (s, s.replace("\n", "\r\n"), s.rstrip("\n"))]
     pycommon.k0_texts(chk, o, lay, "layout variants (LF / CRLF / no final newline) k=0", wall=150 if chk.quick else 900, tokens_only=True)
     chk.run("A-holes k=1", harness.A_harness(holes_textfn(pairs), do_tokens=True, do_parse=False, path_oracles=o),
